@@ -132,14 +132,9 @@ let ending_str = function
   | Unsupported -> "unsupported"
 
 let psite_str (p : psite) : string = match p with
-  | PCond -> "PCond" | PLoopCond -> "PLoopCond" | PAndRhs -> "PAndRhs" | POrRhs -> "POrRhs"
-  | PNumOp -> "PNumOp" | PStrOp -> "PStrOp" | PStrNum -> "PStrNum" | PNumStr -> "PNumStr"
-  | PBoolOp -> "PBoolOp" | PNullOp -> "PNullOp" | PNullMixed -> "PNullMixed" | PMixed -> "PMixed"
-  | PUnary -> "PUnary" | PIdxNonArray -> "PIdxNonArray" | PMemberNoCall -> "PMemberNoCall"
-  | PCallee -> "PCallee" | PVarMissing -> "PVarMissing" | PFuncMissing -> "PFuncMissing"
+  | PNumOp -> "PNumOp" | PVarMissing -> "PVarMissing" | PFuncMissing -> "PFuncMissing"
   | PArgCount -> "PArgCount" | PBuiltinArity -> "PBuiltinArity" | PBreakEscapes -> "PBreakEscapes"
-  | PAssignMissing -> "PAssignMissing" | PIdxTarget -> "PIdxTarget" | PMutVarMissing -> "PMutVarMissing"
-  | PBoolMethod -> "PBoolMethod" | PStrArg -> "PStrArg" | PNumArgs -> "PNumArgs" | PArgIndex -> "PArgIndex"
+  | PAssignMissing -> "PAssignMissing" | PMutVarMissing -> "PMutVarMissing" | PArgIndex -> "PArgIndex"
   | PSegVar -> "PSegVar" | PParamRange -> "PParamRange" | PNoFnScope -> "PNoFnScope"
   | PIdxAssignEnd -> "PIdxAssignEnd" | PFind -> "PFind" | PMutBuiltin -> "PMutBuiltin"
 
